@@ -10,7 +10,7 @@ import argparse, json, os, shutil, subprocess, sys, time
 ap = argparse.ArgumentParser()
 ap.add_argument("prop"); ap.add_argument("name"); ap.add_argument("src"); ap.add_argument("pkg"); ap.add_argument("run")
 ap.add_argument("--checks"); ap.add_argument("--budget", type=int, default=60); ap.add_argument("--tier", default="quick")
-ap.add_argument("--demo-name", default="zz_seeded_demo_test.go"); ap.add_argument("--skip-demo", action="store_true"); ap.add_argument("--tags", default="")
+ap.add_argument("--demo-name", default="zz_seeded_demo_test.go"); ap.add_argument("--skip-demo", action="store_true"); ap.add_argument("--tags", default=""); ap.add_argument("--note", default="")
 a = ap.parse_args()
 ENV = dict(os.environ, GOFLAGS="-mod=mod", GOPROXY="off", GOSUMDB="off")
 wt = "/tmp/seedwt-%s-%s" % (a.prop, a.name)
@@ -20,6 +20,18 @@ for f in ("patch.diff", "README.md", "demo_test.go"):
     if os.path.exists(os.path.join(a.src, f)) and os.path.realpath(a.src) != os.path.realpath(out):
         shutil.copy(os.path.join(a.src, f), os.path.join(out, f))
 meta = {"property": a.prop, "name": a.name, "demo_pkg": a.pkg, "demo_run": a.run, "ran": []}
+if a.note:
+    meta["note"] = a.note
+try:
+    old = json.load(open(os.path.join(out, "meta.json")))
+    meta["history"] = old.get("history", []) + [{"repo_head": old.get("repo_head"), "verif_head": old.get("verif_head"),
+                                                  "checks": {c: r.get("detected") for c, r in (old.get("checks") or {}).items()}}]
+    if not a.note and old.get("note"):
+        meta["note"] = old["note"]
+except Exception:
+    pass
+meta["repo_head"] = subprocess.run("git -C /repo rev-parse --short HEAD", shell=True, stdout=subprocess.PIPE, text=True).stdout.strip()
+meta["verif_head"] = subprocess.run("git -C /verif rev-parse --short HEAD", shell=True, stdout=subprocess.PIPE, text=True).stdout.strip()
 
 def sh(cmd, cwd=None, env=ENV, timeout=3600):
     t0 = time.time()
